@@ -163,7 +163,7 @@ func (tw *TimingWheel) Stop() {
 }
 
 func (tw *TimingWheel) drainAll(fn func(key, value any)) {
-	runner := threading.NewTaskRunner(drainWorkers)
+	var tasks []timingTask
 	for _, slot := range tw.slots {
 		for e := slot.Front(); e != nil; {
 			task := e.Value.(*timingEntry)
@@ -174,12 +174,29 @@ func (tw *TimingWheel) drainAll(fn func(key, value any)) {
 				// the task leaves the wheel, forget its position as well,
 				// otherwise a later SetTimer/MoveTimer on the key updates a dangling entry.
 				tw.timers.Del(task.key)
-				runner.Schedule(func() {
-					fn(task.key, task.value)
+				tasks = append(tasks, timingTask{
+					key:   task.key,
+					value: task.value,
 				})
 			}
 		}
 	}
+
+	if len(tasks) == 0 {
+		return
+	}
+
+	// hand the tasks out on another goroutine: Schedule blocks while all workers are busy,
+	// and a worker that calls back into the wheel waits for this (the wheel's) goroutine.
+	go func() {
+		runner := threading.NewTaskRunner(drainWorkers)
+		for i := range tasks {
+			task := tasks[i]
+			runner.Schedule(func() {
+				fn(task.key, task.value)
+			})
+		}
+	}()
 }
 
 // getOffset returns the number of ticks, minus one, until the slot at pos is scanned next.
